@@ -18,6 +18,7 @@ type Thread struct {
 	started bool
 	blocked func() bool // non-nil: thread may proceed when it returns true
 	quiesce bool        // runnable only when no other thread is
+	lockDepth int       // mutexes currently held (coarse scheduling: no preemption while > 0)
 	wg      *sync.WaitGroup
 	panicV  interface{}
 }
@@ -121,7 +122,9 @@ func (e *Engine) Yield() {
 	var opts []int
 	if meRunnable {
 		opts = append(opts, me.id)
-		if e.preempts < e.cfg.Preempt {
+		// coarse mode: never preempt a thread inside a critical section (it holds a mutex);
+		// the decision is still recorded so that the native baton replay stays aligned
+		if e.preempts < e.cfg.Preempt && !(e.cfg.Bounds["coarse_sched"] != 0 && me.lockDepth > 0) {
 			for _, t := range rs {
 				if t != me {
 					opts = append(opts, t.id)
